@@ -74,3 +74,10 @@ CAMPAIGNS["C20"] = {"variants": [V("full", 1200, 100, 40000, 1800)],
             "observable outcome (scheduled Jobs created, per-Job result, Pods created per Job, TTL deletions, final JobConfig active/queued) modulo time, with all safety "
             "monitors of C02, C05-C13 armed in both.",
     "expect_probes": ["api.drop", "api.lostack", "api.conflict"], "shrink_s": {"quick": 60, "thorough": 300}}
+
+SWEEP_NOTE = (" The 'sweep' variant is a complete single-fault enumeration: a small fault-free pilot plan (<=3 Jobs, fair scheduler) is executed, then re-executed once "
+              "for every (API call ordinal, fault kind in {drop, lost ack, crash before, crash after}) pair with exactly that fault pinned; coverage keys "
+              "sweep.pilots_enumerated_completely / sweep.fault_points_of_complete_pilots count the pilots whose space was enumerated completely.")
+for _p in ("C09", "C05", "C20"):
+    CAMPAIGNS[_p]["variants"].append(V("full", 40, 60, 3000, 1500, name="sweep", variant="sweep"))
+    CAMPAIGNS[_p]["rule"] += SWEEP_NOTE
